@@ -115,24 +115,26 @@ fn synth(sink: &mut CaseSink, rng: &mut Rng, count: usize, stats: &mut BTreeMap<
                    SolverStatus::Solved, SolverStatus::PrimalInfeasible, SolverStatus::DualInfeasible, SolverStatus::Unsolved];
     for k in 0..count {
         let post = k % 2 == 1;
-        let set = sample_settings(rng);
+        let set = sample_settings_wide(rng);
         let cs = set.to_clarabel();
         let (tga, tgr, tf, tia, tir, tk) = if post {
             (set.reduced_tol_gap_abs, set.reduced_tol_gap_rel, set.reduced_tol_feas, set.reduced_tol_infeas_abs, set.reduced_tol_infeas_rel, set.reduced_tol_ktratio)
         } else { (set.tol_gap_abs, set.tol_gap_rel, set.tol_feas, set.tol_infeas_abs, set.tol_infeas_rel, set.tol_ktratio) };
         let m = |rng: &mut Rng| *rng.pick(&mults);
-        let gap_abs = tga * m(rng);
-        let gap_rel = tgr * m(rng);
+        // every figure is placed around EITHER member of its pair (the members are decades apart), so that
+        // each comparison is decided by exactly one member in many cases
+        let gap_abs = *rng.pick(&[tga, tgr]) * m(rng);
+        let gap_rel = *rng.pick(&[tga, tgr]) * m(rng);
         let res_primal = tf * m(rng) * if rng.chance(1, 6) { 150.0 } else { 1.0 };
         let res_dual = tf * m(rng) * if rng.chance(1, 6) { 150.0 } else { 1.0 };
         let ktratio = match rng.below(7) { 0 => 0.5, 1 => 1.0, 2 => 1.0000001, 3 => 1e-15, 4 => 3e-14, _ => (1000.0 / tk) * *rng.pick(&[0.999, 1.0, 1.001, 10.0]) };
         let sgn = |rng: &mut Rng| if rng.chance(4, 5) { -1.0 } else { 1.0 };
-        let dot_bz = sgn(rng) * tia * m(rng);
-        let dot_qx = sgn(rng) * tia * m(rng);
-        let res_primal_inf = (tir * dot_bz).abs() * m(rng);
-        let res_dual_inf = (tir * dot_qx).abs() * m(rng);
+        let dot_bz = sgn(rng) * *rng.pick(&[tia, tir]) * m(rng);
+        let dot_qx = sgn(rng) * *rng.pick(&[tia, tir]) * m(rng);
+        let res_primal_inf = (*rng.pick(&[tia, tir]) * dot_bz).abs() * m(rng);
+        let res_dual_inf = (*rng.pick(&[tia, tir]) * dot_qx).abs() * m(rng);
         let prevm = [0.5, 1.0, 2.0, 0.005, 0.02];
-        let prev = (0.0, 0.0, res_primal * *rng.pick(&prevm), res_dual * *rng.pick(&prevm), set.tol_gap_abs * *rng.pick(&[0.5, 2.0]), set.tol_gap_rel * *rng.pick(&[0.5, 2.0]));
+        let prev = (0.0, 0.0, res_primal * *rng.pick(&prevm), res_dual * *rng.pick(&prevm), *rng.pick(&[set.tol_gap_abs, set.tol_gap_rel]) * *rng.pick(&[0.5, 2.0]), *rng.pick(&[set.tol_gap_abs, set.tol_gap_rel]) * *rng.pick(&[0.5, 2.0]));
         let max_iter = 50u32;
         let iterations = if rng.chance(1, 4) { max_iter } else { 7 };
         let iter = *rng.pick(&[0u32, 1, 2, 5]);
